@@ -579,6 +579,27 @@ def check_form(case, form, text, lines, classes, stats, input_lines=None):
     if caught:
         out.append(('parse-warns-on-wellformed/' + classify_parse_error(str(caught[0].message)),
                     '[%s] strict parse warned: %s' % (form, _r(str(caught[0].message)))))
+    return out + judge_object(cl, case, form, text, lines, classes, stats)
+
+
+def block_problems(b, g):
+    """[(attribute name, written, parsed)] for one model block `b` and one live block `g`."""
+    want = (('package', b['p'], g.package),
+            ('version', b['v'], str(g.version)),
+            ('distributions', ' '.join(b['d']), g.distributions),
+            ('urgency', b['u'], g.urgency),
+            ('urgency-comment', b.get('c', ''), (g.urgency_comment or '').strip()),
+            ('extra-key-values', [list(x) for x in b.get('kv', [])], [list(x) for x in g.other_pairs.items()]),
+            ('change-lines', [l for l in b['body'] if l != ''], [l for l in g.changes() if l.strip() != '']),
+            ('author', '%s <%s>' % (b['n'], b['e']), g.author),
+            ('date', b['dt'], g.date))
+    return [(name, w, have) for name, w, have in want if w != have]
+
+
+def judge_object(cl, case, form, text, lines, classes, stats):
+    """The boundary oracle on one live Changelog object that is supposed to hold exactly the model `case`
+    (text/lines/classes = render(case)).  `form` only labels the messages.  Returns a list of (key, msg)."""
+    out = []
     # -- byte-for-byte
     try:
         got = str(cl)
@@ -604,18 +625,8 @@ def check_form(case, form, text, lines, classes, stats, input_lines=None):
         for i, (b, g) in enumerate(zip(blocks, got_blocks)):
             if stats is not None:
                 stats['M.attrs'] += 1
-            want = (('package', b['p'], g.package),
-                    ('version', b['v'], str(g.version)),
-                    ('distributions', ' '.join(b['d']), g.distributions),
-                    ('urgency', b['u'], g.urgency),
-                    ('urgency-comment', b.get('c', ''), (g.urgency_comment or '').strip()),
-                    ('extra-key-values', [list(x) for x in b.get('kv', [])], [list(x) for x in g.other_pairs.items()]),
-                    ('change-lines', [l for l in b['body'] if l != ''], [l for l in g.changes() if l.strip() != '']),
-                    ('author', '%s <%s>' % (b['n'], b['e']), g.author),
-                    ('date', b['dt'], g.date))
-            for name, w, have in want:
-                if w != have:
-                    out.append(('attribute-differs/' + name, '[%s] block %d %s: wrote %s, parsed %s' % (form, i, name, _r(w), _r(have))))
+            for name, w, have in block_problems(b, g):
+                out.append(('attribute-differs/' + name, '[%s] block %d %s: wrote %s, parsed %s' % (form, i, name, _r(w), _r(have))))
         vs = [str(v) for v in cl.versions]
         if vs != [b['v'] for b in blocks]:
             out.append(('attribute-differs/versions-order', '[%s] Changelog.versions %s, written order %s' % (form, _r(vs), _r([b['v'] for b in blocks]))))
